@@ -4359,19 +4359,21 @@ def bundle_retention(P, R, L):
 
 def bundle_liveness(P, R, L):
     """files a reader may still open are not deleted"""
-    R.clause("LIVE", "liveness bundle: GRD-5 (deletion guards incl. files of every linked version), PAIR-1 (version pins), OWN-12 (release unlinks that version), ORD-13 (pending outputs stay registered until installed), cache eviction before delete")
+    R.clause("LIVE", "liveness bundle: GRD-5 (deletion guards incl. files of every linked version), PAIR-1 (version pins), OWN-12 (release unlinks that version), LIST-1 (a walk over the version list visits every version), ORD-13 (pending outputs stay registered until installed), cache eviction before delete")
     from . import c11
     R.once(c11.grd5, P, R, L)
     R.once(c11.pair1, P, R, L)
     R.once(cache_eviction, P, R, L)
     R.once(own12_release_unlinks_that_version, P, R, L)
     R.once(c11.ord13, P, R, L)
+    R.once(list1_iteration_covers_the_list, P, R, L)
 
 
 def bundle_readpath(P, R, L):
     """how a lookup / scan finds the newest visible entry"""
     R.clause("READ", "read-path bundle: KEY-1 (key order), VERD-1 (verdicts, tombstones stop the search), GRD-3 (sequence filter), GRD-13 (file search), "
-             "SRC-1 / SRC-2 (all sources, newest first), PAIR-5 (filter registration), OWN-10 / OWN-11 (cache keys)")
+             "SRC-1 / SRC-2 (all sources, newest first), SRC-3 (which file a level iterator opens), WRAP-1 (wrapper iterators reposition their child), "
+             "PAIR-5 (filter registration), OWN-10 / OWN-11 (cache keys)")
     from . import c14
     R.once(key1_internal_key_order, P, R, L)
     R.once(verd1, P, R, L)
@@ -4388,6 +4390,9 @@ def bundle_readpath(P, R, L):
     R.once(atom1_positional_read_is_one_operation, P, R, L)
     agr2_codec_pairs(P, R, L, groups=("table",))
     R.once(grd27_separator_strictly_below_next_key, P, R, L)
+    R.once(src3_level_iterator_file_selection, P, R, L)
+    R.once(wrap1_delegation, P, R, L)
+    R.once(pair13_index_key_provenance, P, R, L)
 
 
 def bundle_recovery(P, R, L):
@@ -5883,3 +5888,262 @@ def prog1_sampling_loop_progress(P, R, L, rule="PROG-1"):
             bad.append("line %s assigns the counter without adding to its previous value" % s[2].get("line"))
     R.check(rule, fn + "|counter-accumulates", bool(loop_tests) and bool(stores) and not bad, where(b),
             "inside the sampling loop the counter that the loop condition reads is only ever increased (`+=`)", "; ".join(bad) or "%d loop tests, %d stores" % (len(loop_tests), len(stores)))
+
+
+# ------------------------------------------------------------------------------------------- SRC-3 which file a level iterator opens
+FILES_ITER = "versioning::file_iterators::FilesEntryIterator"
+FIND_FILE = "versioning::utils::find_file_with_upper_bound_range"
+
+
+def _payload_origins(b, op):
+    """origins of an Option<usize> operand with the `Some` wrapper taken off"""
+    return [o for o in origins(b, op) if not (o.kind == "agg" and (o.name or "").endswith("Option::Some"))]
+
+
+def src3_level_iterator_file_selection(P, R, L, rule="SRC-3"):
+    """FilesEntryIterator: the file index handed to set_table_iter is, in seek, the result of the binary search over the whole
+    file list for the target (a shortcut that keeps another index must bound the target from BOTH sides: smallest and
+    largest key of that file), in seek_to_first 0, in seek_to_last len - 1, and in the skip helpers the neighbour of the
+    current index in the helper's direction."""
+    loader = FILES_ITER + "::set_table_iter"
+    n = 0
+    table = [("<%s as %s>::seek" % (FILES_ITER, ITER_TRAIT), "search"), ("<%s as %s>::seek_to_first" % (FILES_ITER, ITER_TRAIT), "first"),
+             ("<%s as %s>::seek_to_last" % (FILES_ITER, ITER_TRAIT), "last"), (FILES_ITER + "::skip_empty_table_files_forward", "succ"),
+             (FILES_ITER + "::skip_empty_table_files_backward", "pred")]
+    for path, kind in table:
+        b = P.body(path)
+        if b is None:
+            R.missing_anchor(rule, path)
+            continue
+        R.analysed(b)
+        sites = [c for c in b.calls() if c.name == loader and not b.is_cleanup(c.bb) and len(c.args) >= 2]
+        if not sites:
+            R.missing_anchor(rule, "%s calls set_table_iter" % path)
+            continue
+        for c in sites:
+            n += 1
+            os_ = _payload_origins(b, c.args[1])
+            bad = []
+            if kind == "search":
+                srch = [o for o in os_ if o.kind == "call" and o.name == FIND_FILE]
+                other = [o for o in os_ if o not in srch]
+                for o in srch:
+                    a = o.site.args
+                    if not (len(a) == 2 and any("file_list" in x.path for x in origins(b, a[0])) and
+                            any(x.kind == "param" and x.name == 2 for x in origins(b, a[1]))):
+                        bad.append("the search is not over (self.file_list, target)")
+                if not srch:
+                    bad.append("the index does not come from %s" % FIND_FILE.rsplit("::", 1)[1])
+                if other:
+                    # a shortcut is sound only if the target is bounded from both sides by the file it keeps
+                    is_t = lambda os: any(x.kind == "param" and x.name == 2 for x in os)
+                    sides = set()
+                    for cmp_ in comparisons(b):
+                        lo, ro = cmp_.lhs_origins(), cmp_.rhs_origins()
+                        for (t_, k_) in ((lo, ro), (ro, lo)):
+                            if is_t(t_):
+                                for x in k_:
+                                    if x.kind == "call" and x.name.endswith("::smallest_key"):
+                                        sides.add("smallest")
+                                    if x.kind == "call" and x.name.endswith("::largest_key"):
+                                        sides.add("largest")
+                    if sides != {"smallest", "largest"}:
+                        bad.append("an index that is not the search result (%s) is used with the target bounded only by %s" % (
+                            sorted({repr(o) for o in other})[:3], sorted(sides) or "nothing"))
+            elif kind == "first":
+                if not os_ or not all(o.kind == "const" and str(o.name) == "0" for o in os_):
+                    bad.append("index origins %s" % sorted({repr(o) for o in os_})[:4])
+            else:
+                want = {"last": "Sub", "succ": "Add", "pred": "Sub"}[kind]
+                ar = [o for o in os_ if o.kind == "binop"]
+                rest = [o for o in os_ if o.kind != "binop" and not (kind == "last" and o.kind == "const" and str(o.name) == "0")]
+                if not ar or rest or not all((o.name or "").startswith(want) for o in ar):
+                    bad.append("index origins %s" % sorted({repr(o) for o in os_})[:4])
+                for o in ar:
+                    ops = o.extra[1]["rv"]["ops"]
+                    base = origins(b, ops[0])
+                    one = ops[1]["k"] == "const" and str(ops[1].get("val")) == "1"
+                    if kind == "last":
+                        good = any(x.kind == "call" and x.name.endswith("::len") and any("file_list" in y.path for y in origins(b, x.site.args[0])) for x in base)
+                    else:
+                        good = any("current_file_index" in x.path for x in base)
+                    if not (good and one):
+                        bad.append("the index is not %s" % {"last": "file_list.len() - 1", "succ": "current_file_index + 1", "pred": "current_file_index - 1"}[kind])
+            R.check(rule, "%s|file-index=%s" % (path, kind), not bad, c.where(),
+                    {"search": "the file to open is the one the search over the whole file list finds for the target",
+                     "first": "the first file", "last": "the last file", "succ": "the next file", "pred": "the previous file"}[kind],
+                    "; ".join(bad) or "ok")
+    R.floor(rule, "set_table_iter call sites with a checked index", n, 5)
+
+
+# ------------------------------------------------------------------------------------------- WRAP-1 a wrapper iterator delegates every repositioning
+WRAPPERS = [
+    # (self type, child field for seeks, child field for steps)
+    ("iterator::CachingIterator", "iterator", "iterator"),
+    ("versioning::file_iterators::FilesEntryIterator", "current_table_iter", "current_table_iter"),
+    ("tables::table::TwoLevelIterator", "index_block_iter", "maybe_data_block_iter"),
+    ("iterator::DatabaseIterator", "inner_iter", None),
+]
+
+
+def _validity_edges(P, b):
+    """(true_edges, false_edges) of tests of the receiver's own validity: reads of a bool field `is_valid` and calls of is_valid on self"""
+    tr, fl = [], []
+    for c in b.calls():
+        if b.is_cleanup(c.bb) or not (c.name or "").endswith("::is_valid") or not c.args:
+            continue
+        if any(o.kind == "param" and o.name == 1 and not o.path for o in origins(b, c.args[0])):
+            for t in _bt(b, c.dest["l"]):
+                tr += [(t.bb, x) for x in t.ok]
+                fl += [(t.bb, x) for x in t.err]
+    for (bb, i, st) in field_reads(b, "is_valid"):
+        if st["k"] == "assign" and not st["pl"]["p"] and "bool" == b.local_ty(st["pl"]["l"]):
+            for t in _bt(b, st["pl"]["l"]):
+                tr += [(t.bb, x) for x in t.ok]
+                fl += [(t.bb, x) for x in t.err]
+    return tr, fl
+
+
+def wrap1_delegation(P, R, L, rule="WRAP-1"):
+    """A wrapper iterator (CachingIterator, FilesEntryIterator, TwoLevelIterator, DatabaseIterator) repositions its child on
+    every seek: an Ok return of seek / seek_to_first / seek_to_last that did not pass the child's positioning call is only
+    acceptable where the wrapper knows it has no child (the Option is None) or behind the TRUE edge of a test of its own
+    validity (a shortcut may trust the cached position only while it is valid).  next / prev step the child unless the
+    wrapper is invalid."""
+    n = 0
+    for (ty, seek_child, step_child) in WRAPPERS:
+        for meth in ("seek", "seek_to_first", "seek_to_last", "next", "prev"):
+            child = seek_child if meth.startswith("seek") else step_child
+            if child is None:
+                continue
+            path = "<%s as %s>::%s" % (ty, ITER_TRAIT, meth)
+            b = P.body(path)
+            if b is None:
+                R.missing_anchor(rule, path)
+                continue
+            R.analysed(b)
+            n += 1
+            on_child = lambda c: bool(c.args) and any(child in o.path for o in origins(b, c.args[0]))
+            deleg = [c for c in b.calls() if not b.is_cleanup(c.bb) and (c.declared_name or "").startswith(ITER_TRAIT + "::") and
+                     (c.declared_name or "").rsplit("::", 1)[1] == meth and on_child(c)]
+            if ty == "tables::table::TwoLevelIterator" and meth.startswith("seek"):
+                pass
+            tr, fl = _validity_edges(P, b)
+            none_e = field_option_edges(b, child)[1]
+            exempt = none_e + (tr if meth.startswith("seek") else fl)
+            if meth.startswith("seek"):
+                ends = _ok_blocks(b) or b.return_blocks()
+            else:
+                ends = b.return_blocks()
+            r = b.reachable(0, removed_nodes=[c.bb for c in deleg], removed_edges=exempt)
+            leak = [x for x in ends if x in r]
+            ok = bool(deleg) and not leak
+            R.check(rule, "%s|delegates-to-child" % path, ok, where(b),
+                    "%s reaches a%s return only through the child's %s (or where it has no child / behind a test of its own validity)" % (
+                        meth, "n Ok" if meth.startswith("seek") else "", meth),
+                    "no delegated call on field `%s`" % child if not deleg else
+                    ("a return (block %s, line %s) is reachable without repositioning the child" % (leak[0], b.term(leak[0]).get("line")) if leak else "ok"))
+    R.floor(rule, "wrapper positioning methods checked", n, 18)
+
+
+# ------------------------------------------------------------------------------------------- PAIR-13 (keys) where an index key comes from
+def _call_closure(body, op, follow, depth=5):
+    """call origins of an operand, looking through the first argument of the calls named in `follow`"""
+    out = []
+    for o in origins(body, op):
+        if o.kind != "call":
+            continue
+        out.append(o)
+        if depth > 0 and o.site is not None and o.site.args and any(o.name.startswith(f) or o.name == f for f in follow):
+            out += _call_closure(body, o.site.args[0], follow, depth - 1)
+    return out
+
+
+def pair13_index_key_provenance(P, R, L, rule="PAIR-13"):
+    """TableBuilder: the key of an index entry is the InternalKey-level separator between the last key of the flushed block
+    and the next key (add_entry) or the InternalKey-level successor of the last key (finalize).  Those two functions
+    fall back to the key itself whenever the shortened user key is not both shorter and larger (empty and all-0xff user
+    keys); a key assembled by hand from the byte-level helper has no such guard and can sort BELOW the last key of its
+    block, which makes point lookups and seeks run off the end of the index."""
+    BADD = "tables::block_builder::BlockBuilder::add_entry"
+    want = {"tables::table_builder::TableBuilder::add_entry": "<&key::InternalKey as utils::bytes::BinarySeparable>::find_shortest_separator",
+            "tables::table_builder::TableBuilder::finalize": "<&key::InternalKey as utils::bytes::BinarySeparable>::find_shortest_successor"}
+    n = 0
+    for fn, sep in want.items():
+        b = P.body(fn)
+        if b is None:
+            R.missing_anchor(rule, fn)
+            continue
+        R.analysed(b)
+        for c in b.calls():
+            if b.is_cleanup(c.bb) or c.name != BADD or not any("index_block_builder" in o.path for o in origins(b, c.args[0])):
+                continue
+            n += 1
+            cl = _call_closure(b, c.args[1], ("<key::InternalKey as std::convert::TryFrom", "key::InternalKey::try_from"))
+            names = {o.name for o in cl}
+            seps = [o for o in cl if o.name == sep]
+            foreign = sorted(x for x in names if x != sep and not x.startswith("<key::InternalKey as std::convert::TryFrom"))
+            from_last = bool(seps) and all(any("maybe_last_key_added" in y.path for y in deep_origins(P, b, o.site.args[0])) for o in seps)
+            ok = bool(seps) and not foreign and from_last
+            R.check(rule, "%s|index-key-from-guarded-separator" % fn, ok, c.where(),
+                    "the index key is %s(last key of the block, ..) re-parsed as an InternalKey" % sep.rsplit("::", 1)[1],
+                    "separator calls %d (on the last key added: %s); other producers %s" % (len(seps), from_last, foreign[:3]))
+    R.floor(rule, "index entries with a checked key", n, 2)
+
+
+# ------------------------------------------------------------------------------------------- LIST-1 the version list is walked completely
+def list1_iteration_covers_the_list(P, R, L, rule="LIST-1"):
+    """utils::linked_list: `iter()` starts at the head and the iterator advances along the `next` links, so a walk visits every
+    node (VersionSet::get_live_files walks the version list to find the files pinned by older versions)."""
+    it = P.body("utils::linked_list::LinkedList::<T>::iter")
+    if it is None:
+        R.missing_anchor(rule, "utils::linked_list::LinkedList::<T>::iter")
+    else:
+        R.analysed(it)
+        os_ = origins(it, {"l": 0, "p": [{"f": 0, "n": "next"}]}) if True else []
+        flds = {x for o in os_ for x in o.path}
+        # fall back to the aggregate that builds the iterator
+        if not os_ or all(o.kind == "unknown" for o in os_):
+            flds = set()
+            for bb in range(it.n):
+                for st in it.blocks[bb]["stmts"]:
+                    if st["k"] == "assign" and st["rv"]["k"] == "aggregate" and "NodeIter" in (st["rv"].get("adt") or ""):
+                        for op in st["rv"]["ops"]:
+                            flds |= {x for o in origins(it, op) for x in o.path}
+        calls = {o.name for o in os_ if o.kind == "call"}
+        ok = "head" in flds and "tail" not in flds and not any(c.endswith("::tail") for c in calls)
+        R.check(rule, "%s|starts-at-head" % it.path, ok, where(it), "the iterator's first node is the list's head", "fields read: %s %s" % (sorted(flds), sorted(calls)))
+    nx = [b for p, b in P.bodies.items() if p.startswith("<utils::linked_list::NodeIter<T> as std::iter::Iterator>::next")]
+    if not nx:
+        R.missing_anchor(rule, "<utils::linked_list::NodeIter<T> as std::iter::Iterator>::next")
+    for b in nx:
+        R.analysed(b)
+    st_next, bad = 0, []
+    for b in nx:
+        stores = list(field_stores(b, "next"))
+        # inside the `map` closure the cursor is the captured `&mut self.next`: a store through that upvar
+        for bb in range(b.n):
+            if b.is_cleanup(bb):
+                continue
+            for i, st in enumerate(b.blocks[bb]["stmts"]):
+                if st["k"] == "assign" and st["pl"]["p"] and not any(isinstance(e, dict) and "f" in e for e in st["pl"]["p"]) and \
+                        any(o.kind == "upvar" and str(o.name).endswith("next") for o in origins(b, {"l": st["pl"]["l"], "p": []})):
+                    stores.append((bb, i, st))
+        for (bb, i, st) in stores:
+            if st["rv"]["k"] == "use" and st["rv"]["ops"][0]["k"] == "const":
+                continue
+            st_next += 1
+            def fields_of(op, d=5):
+                out = set()
+                for o in origins(b, op):
+                    out |= set(o.path)
+                    if o.kind == "call" and o.site is not None and o.site.args and d > 0 and \
+                            strip_generics(o.name) in ("std::option::Option::map", "std::option::Option::and_then", "std::option::Option::cloned"):
+                        out |= fields_of(o.site.args[0], d - 1)
+                return out
+            fl = fields_of(st["rv"]["ops"][0]) if st["rv"]["k"] == "use" else set()
+            if "prev" in fl or "next" not in fl:
+                bad.append(sorted(fl))
+    if nx:
+        R.check(rule, "utils::linked_list::NodeIter::next|advances-along-next", st_next >= 1 and not bad, where(nx[0]),
+                "the cursor moves to the `next` link of the node it yields", "stores to the cursor %d; offending origins %s" % (st_next, bad[:2]))
